@@ -382,12 +382,14 @@ CHARS = [0, 0x17, 0x18, 0x41, 0x7f, 0x80, 0xff, 0x100, 0x7ff, 0x800, 0xd7ff, 0xe
 LENS = [0, 1, 2, 3, 23, 24, 25]
 
 
+_B64 = [b for b in gen.boundaries(64)]
+
+
 def gen_int(rng, kind):
     lo, hi = INT_KINDS[kind]
     r = rng.random()
     if r < 0.45:
-        c = [b for b in gen.boundaries(64)]
-        x = rng.choice(c)
+        x = rng.choice(_B64)
         x = rng.choice([x, -x, -1 - x])
     elif r < 0.6:
         x = rng.choice([lo, hi, lo + 1, hi - 1, 0, -1, 23, 24, -24, -25, 255, 256, -256, -257])
@@ -413,8 +415,49 @@ def key_sort(k):
     raise ValueError("key type")
 
 
+BULK = None      # (count, max depth): while set, every seq / map down to that depth gets `count` elements whatever the element type
+
+
+def has_container(t, depth=0, limit=2):
+    """is there a seq / map within `limit` levels of the top of t?"""
+    if depth > limit or not isinstance(t, tuple): return False
+    if t[0] in ("seq", "vec", "map"): return True
+    return any(has_container(x, depth + 1, limit) for x in _children(t))
+
+
+def _children(t):
+    k = t[0]
+    if k in ("opt", "nt", "vec"): return [t[1]]
+    if k == "seq": return [t[2]]
+    if k == "arr": return [t[2]]
+    if k in ("tup", "ts"): return list(t[1])
+    if k == "map": return [t[2], t[3]]
+    if k == "st": return [unskip(ft) if isinstance(ft, tuple) else ft for _, ft in t[1]]
+    return []
+
+
+def gen_bulk(rng, t, count, maxdepth=2):
+    """a value of t in which the outermost containers hold `count` elements: documents with hundreds of tuples, fixed
+    arrays, options, structs and enum values, so that per-document state in the (de)serialiser is exercised"""
+    global BULK
+    BULK = (count, maxdepth)
+    try:
+        return gen_val(rng, t)
+    finally:
+        BULK = None
+
+
 def gen_val(rng, t, depth=0, size=None):
     k = t[0]
+    if size is None and BULK is not None and k in ("seq", "vec", "map") and depth <= BULK[1]:
+        # the outermost container on this path gets `count` elements; what is inside is generated as usual
+        global _BULK_SAVED
+        saved, count = BULK, BULK[0]
+        globals()["BULK"] = None
+        try:
+            return gen_val(rng, t, depth, count)
+        finally:
+            globals()["BULK"] = saved
     if k == "bool": return ("bool", rng.random() < 0.5)
     if k == "int": return gen_int(rng, t[1])
     if k == "f32": return ("f32", rng.choice(INTERESTING_F32) if rng.random() < 0.5 else rng.getrandbits(32))
